@@ -14,6 +14,7 @@ from . import core, flavours, pipeline as P, randops, trace
 from .findings import Report, env_seed
 
 ALL_OPS = ["add", "badpos", "add_node", "add_tree", "move", "remove", "sort", "set_data", "filter"]
+ALL_OPS_X = ALL_OPS + ["filterx"]
 
 
 def slim(rec):
@@ -247,7 +248,7 @@ def stage_faults(rep, props, *, label, max_nodes, d, flnames):
 
 
 # ------------------------------------------------------------------------------------------------
-PLAIN_FLAVOURS = ["str", "int", "tuple", "dataclass", "dictwrapper", "keyed", "falsy"]
+PLAIN_FLAVOURS = ["str", "int", "tuple", "dataclass", "dictwrapper", "keyed", "falsy", "intnid"]
 
 
 def run(prop: str, tier: str) -> int:
@@ -266,7 +267,7 @@ def run(prop: str, tier: str) -> int:
         "int `before` positions inside the same parent for move_to are not driven (documentation is ambiguous)",
     ]
     focus = {
-        "C01": ALL_OPS, "C04": ALL_OPS, "C13": ALL_OPS,
+        "C01": ALL_OPS_X, "C04": ALL_OPS_X, "C13": ALL_OPS,
         "C02": ["add", "add_node", "move", "remove", "set_data", "filter"],
         "C03": ["add", "add_node", "add_tree", "move", "remove", "set_data"],
         "C07": ["add", "add_node", "add_tree", "remove", "set_data"],
@@ -278,7 +279,7 @@ def run(prop: str, tier: str) -> int:
         stage_mc_only(rep, label="mc:plain<=5x3", consts=K(max_nodes=5, d=3, ops=["add", "move", "remove", "set_data"],
                                                             emit=False))
     # --- exhaustive transitions, executed
-    fl_q = {"C02": ["str", "keyed", "falsy"], "C01": ["str", "keyed"], "C04": ["str", "dataclass"]}.get(prop, ["str"])
+    fl_q = {"C02": ["str", "keyed", "falsy", "intnid"], "C01": ["str", "keyed"], "C04": ["str", "dataclass"]}.get(prop, ["str"])
     pairs = stage_exhaustive(rep, props, label="ex:plain<=3x2", consts=K(max_nodes=3, d=2, ops=focus, emit=True),
                              flnames=fl_q if quick else PLAIN_FLAVOURS)
     typed_ops = focus if not quick else [o for o in focus if o in ("add", "badpos", "add_node", "add_tree", "remove", "move")]
@@ -293,9 +294,12 @@ def run(prop: str, tier: str) -> int:
                      consts=K(max_nodes=3, d=3, ops=[o for o in focus if o in ("add", "set_data", "add_node", "remove", "move")],
                               emit=True), flnames=["callback"])
     if prop == "C04" or not quick:
-        stage_exhaustive(rep, props, label="ex:meta<=2x2", mk=2,
-                         consts=K(max_nodes=2, d=2, meta_vals=1 if quick else 2, meta_keys=2, ops=["add", "meta", "remove"], emit=True),
-                         flnames=["str"])
+        mpairs = stage_exhaustive(rep, props, label="ex:meta<=2x2", mk=2,
+                                  consts=K(max_nodes=2, d=2, meta_vals=1 if quick else 2, meta_keys=2, ops=["add", "meta", "remove"], emit=True),
+                                  flnames=["str"])
+        # histories of metadata edits on one live object (dict objects passed to update_meta are re-used)
+        stage_walks(rep, props, label="walk:meta", pairs=mpairs, flnames=["str"], walks=150 if quick else 1500, steps=25,
+                    seed=seed, mk=2)
     if not quick:
         pairs = stage_exhaustive(rep, props, label="ex:plain<=4x3", consts=K(max_nodes=4, d=3, ops=focus, emit=True),
                                  flnames=["str", "keyed"])
@@ -312,6 +316,9 @@ def run(prop: str, tier: str) -> int:
                  histories=60 if quick else 800, steps=40, seed=seed + 2,
                  cfg={"D": 4, "max_nodes": 12, "mk": 1})
     stage_suite(rep, props)
+    if prop == "C07":
+        from . import checks_query
+        checks_query.copies_stage(rep, quick)
     if prop == "C13":
         stage_faults(rep, props, label="faults<=3x2" if quick else "faults<=4x3", max_nodes=3 if quick else 4,
                      d=2 if quick else 3, flnames=["str", "keyed"])
